@@ -490,6 +490,27 @@ func (g G) planC01() *Plan {
 		}
 		p.World.Presessions = append(p.World.Presessions, ps)
 	}
+	// several tenants on one instance: the issuer follows the request host, the storage keeps stored requests per tenant
+	// (per-tenant ids collide across tenants), the callback endpoint may be published under an external URL
+	tenants := g.chance("tenants", 12)
+	if tenants {
+		p.World.IDP.IssuerKind, p.World.IDP.Issuer = "host", g.pick("tenants.path", "", "", "/saml")
+		p.World.TenantSessions = true
+		switch g.intn("tenants.cb", 3) {
+		case 1:
+			p.World.IDP.Callback = EndpointCfg{Set: true, Path: "/ext/cb", URL: "https://gateway.example/ext/cb"}
+		case 2:
+			p.World.IDP.Callback = EndpointCfg{Set: true, Path: "/custom/cb"}
+		}
+		p.Family += "+tenants"
+		defer func() {
+			for i := range p.Steps {
+				if m := p.Steps[i].Msg; m != nil {
+					m.Host = g.pick(fmt.Sprintf("tenants.h%d", i), hostMarker(0)+".idp.example", hostMarker(1)+".idp.example", "gateway.example", "gateway.example")
+				}
+			}
+		}()
+	}
 	n := g.rng("nsteps", 3, 40)
 	sessRange := 8
 	if g.chance("soak", soakPct) {
